@@ -6,3 +6,9 @@ package trace
 //@ type Tracer
 //@   immutable errHandler next reqHeaders respHeaders log writerMu
 //@   sink writer guarded_by writerMu
+
+//@ func (*Tracer).newRecord
+//@   props C09 C20
+//@   requires req != nil && pw != nil
+//@   modifies everything
+//@   ensures result != nil
